@@ -520,4 +520,12 @@ def oracle_C02(rec):
     return comp_repl.oracle_C02(r2)
 
 
-ORACLES = {"C02": oracle_C02, "C05": oracle_C05, "C06": oracle_C06, "C07": oracle_C07, "C08": oracle_C08}
+def oracle_state(rec):
+    """C17 / C18 on generation records: the step model must reproduce the transition (checked by the
+    correspondence), no random source outside numpy's global generator, nothing altered after evaluation"""
+    if rec.err is not None:
+        return ["run raised: " + rec.err]
+    return list(rec.frames) + ["random source outside numpy's global generator: %s" % (f,) for f in rec.foreign[:2]]
+
+
+ORACLES = {"C17": oracle_state, "C18": oracle_state, "C02": oracle_C02, "C05": oracle_C05, "C06": oracle_C06, "C07": oracle_C07, "C08": oracle_C08}
